@@ -22,6 +22,8 @@ with .decode are re-encoded by __init__, and every attribute compared by _cmp_li
 hence factory(**stanza.as_dict()) rebuilds an equal object; (c) select_conflicts appends every conflict to exactly one
 of its two result lists; (d) InventoryWorkingTree.set_conflicts / conflicts write and read the same control file through
 to_stanzas / from_stanzas.
+Added while testing against seeded changes: Also: set_conflicts / set_merge_modified cannot return without writing
+their control file; resolve() treats only `paths is None` as 'all conflicts'.
 Does not decide: rio's escaping of arbitrary unicode (bzrformats).
 """
 
